@@ -93,6 +93,9 @@ class Limiter:
         except StopIteration as si:
             ok, resp = si.value
             return bool(ok)
+        except Exception as e:  # noqa: BLE001
+            self.bad_response = ("process_request raised", repr(e))
+            return False
         raise RuntimeError("process_request suspended")
 
     def crowd(self, n):
@@ -109,10 +112,16 @@ class Limiter:
         returns the list of decisions in call order)."""
         async def go():
             calls = [self.rl.process_request("gemini://h.ex/" + self.rnd_path(), ADDR[ip], self.rnd_fp()) for _ in range(1 + concurrent)]
-            return await asyncio.gather(*calls)
+            return await asyncio.gather(*calls, return_exceptions=True)
         res = self.loop.run_coro(go())
         oks = []
-        for ok, resp in res:
+        for one in res:
+            if isinstance(one, BaseException):
+                # neither an admission nor the refusal the property describes
+                self.bad_response = ("process_request raised", repr(one))
+                oks.append(False)
+                continue
+            ok, resp = one
             if ok:
                 if resp is not None:
                     self.bad_response = ("admitted with a response", resp)
@@ -202,7 +211,7 @@ def replay_behaviours(rep, behaviours, ips):
 
 def random_trace(rnd):
     d = rnd.choice([1, 2, 4, 64, 256, 1024])
-    par = {"cap": rnd.choice([1, 2, 3, 5, 10]), "r": rnd.choice([1, 1, 2, 3]), "d": d}
+    par = {"cap": rnd.choice([1, 2, 3, 5, 10]), "r": rnd.choice([0, 1, 1, 2, 3]), "d": d}   # r = 0: an allowance that never comes back
     ips = ["a", "b", "c"]
     out = []
     with virtual([mwmod]) as loop:
